@@ -421,6 +421,11 @@ func (symbol *compositeEntitySetSymbol) GetType() ast.NodeType {
 }
 
 func (symbol *compositeEntitySetSymbol) Eval(tx *bbolt.Tx, _ []byte) (FieldType, []byte) {
+	// read outside a set function (`count(a.b) = null`, or `a.b = ...` inside a sub-query): no cursor
+	// has been opened on this symbol, so there is no current element
+	if symbol.cursor == nil {
+		return TypeNil, nil
+	}
 	return symbol.cursorLastF(tx, symbol.cursor.key)
 }
 
